@@ -137,8 +137,8 @@ func genC08(tier string, seed int64) (*Family, error) {
 	pkg := "c08"
 	fam := &Family{
 		Prop: "C08", PkgPath: modPath + "/zz_verif/" + pkg, Files: map[string]string{},
-		Bounds: map[string]interface{}{"installed_rules_before_the_step": "0..3", "rules_per_incremental_call": "1..2 (thorough 3)", "removal_lists": "every subset incl. absent names", "steps": "one operation from an arbitrary state, plus two-step sequences"},
-		Cfg:    interp.Config{MaxSteps: 4_000_000, MaxPaths: 60000},
+		Bounds:    map[string]interface{}{"installed_rules_before_the_step": "0..3", "rules_per_incremental_call": "1..2 (thorough 3)", "removal_lists": "every subset incl. absent names", "steps": "one operation from an arbitrary state, plus two-step sequences"},
+		Cfg:       interp.Config{MaxSteps: 4_000_000, MaxPaths: 60000},
 		Functions: []string{"builder.RuleBuilder).BuildRuleFromString", "builder.RuleBuilder).BuildRuleWithIncremental", "builder.RuleBuilder).RemoveRules", "builder.RuleBuilder).IsExist", "tool.BinarySearch"},
 	}
 	fam.Assumptions = []string{
